@@ -163,6 +163,9 @@ def _alias_of(pa, t):
     return t
 
 
+_SWAP = {"ugt": "ult", "ult": "ugt", "uge": "ule", "ule": "uge", "sgt": "slt", "slt": "sgt", "sge": "sle", "sle": "sge"}
+
+
 def check_release(chk, prog, eff, cache, ctors, off, R="C04.release", RX="C04.release-exhaustive"):
     import typestate as _ts
     PA_ = _ts.PredAlgebra(prog)
@@ -203,9 +206,18 @@ def check_release(chk, prog, eff, cache, ctors, off, R="C04.release", RX="C04.re
         # did the count reach zero?
         zero = None
         for t, truth, _ in pa.facts:
-            if t[0] == "icmp" and t[1] == "eq" and t[3] == ("c", 0) and isinstance(t[2], tuple) and t[2][0] == "op" and \
-                    any(isinstance(x, tuple) and x[0] == "ld" and x[1] == ITEM and x[2] == off["refcount"] for x in t[2][3:5]):
-                zero = truth
+            if t[0] != "icmp":
+                continue
+            pred, a, b = t[1], t[2], t[3]
+            if isinstance(a, tuple) and a[0] == "c" and not (isinstance(b, tuple) and b[0] == "c"):
+                pred, a, b = _SWAP.get(pred, pred), b, a
+            if not (isinstance(b, tuple) and b[0] == "c" and isinstance(a, tuple) and a[0] == "op" and
+                    any(isinstance(x, tuple) and x[0] == "ld" and x[1] == ITEM and x[2] == off["refcount"] for x in a[3:5])):
+                continue
+            # every way of asking an unsigned count "are you 0?"
+            z = {("eq", 0): True, ("ne", 0): False, ("ugt", 0): False, ("ule", 0): True, ("ult", 1): True, ("uge", 1): False}.get((pred, b[1]))
+            if z is not None:
+                zero = truth if z else not truth
         if zero is None:
             raise AnalysisBroken("cbor_decref path %d: no test of the decremented count" % k)
         if not zero:
@@ -473,13 +485,17 @@ def check_covered(chk, rule, prog, eff, cache, floor=4):
     def plus1(i):
         return (("op", "add", "i64", ("c", 1), i), ("op", "add", "i64", i, ("c", 1)))
 
+    # accessors are seen through: `handle(item)[size(item) - 1]` is `data[end_ptr - 1]`
+    getters = rules.pure_getters(prog, eff) - {"cbor_incref", "cbor_move"}
     for f in prog.lib_funcs():
         if f.name in ("cbor_decref", "cbor_incref", "cbor_intermediate_decref", "cbor_move"):
             continue
         where = "%s:%d" % (f.file, f.line)
-        for k, pa in enumerate(cache.get(f.name, inline_static=True)):
+        for k, pa in enumerate(cache.get(f.name, inline=O.static_callees(prog, eff, f.name) | (getters - {f.name}))):
             st = pa.st
             taken = {e.args[0] for e in pa.events if e.kind == "call" and e.callee == "cbor_incref"}
+            # (`slot = cbor_incref(x)`: the routine returns its argument - C04.contracts - so its result is the counted value too)
+            taken |= {e.res for e in pa.events if e.kind == "call" and e.callee == "cbor_incref" and e.res is not None}
             taken |= {ptr_key(e.args[0])[0] for e in pa.events if e.kind == "store" and O.refcount_delta(off_rc, e) == 1}
             if not taken:
                 continue
@@ -530,6 +546,8 @@ def check_slot_init(chk, rule, prog, eff, cache, floor=2):
     def plus1(i):
         return (("op", "add", "i64", ("c", 1), i), ("op", "add", "i64", i, ("c", 1)))
 
+    # accessors are seen through: `handle(item)[size(item) - 1]` is `data[end_ptr - 1]`
+    getters = rules.pure_getters(prog, eff) - {"cbor_incref", "cbor_move"}
     for f in prog.lib_funcs():
         if f.name in ("cbor_decref", "cbor_incref", "cbor_intermediate_decref", "cbor_move"):
             continue
